@@ -278,6 +278,8 @@ JudgeValidate(e) ==
       K13(k) == <<e.obs[k].id, s[e.obs[k].id], FactsOf(e.obs[k], keys)>>
   IN /\ J("C01", e, "result keys differ from the ids held",
           SeqToSet(e.keys) = DOMAIN s /\ Len(e.keys) = Cardinality(DOMAIN s))
+     /\ J("C01", e, "a result is tagged with another id than the one it is filed under",
+          \A k \in DOMAIN e.rids : e.rids[k][1] = e.rids[k][2])
      \* C11: the result, diagnostics in order, is a function of the (id, content) pairs
      /\ J("C11", e, "result (with diagnostic order) differs from the first validation of an equal (id, content) map",
           s \in DOMAIN memo12 => memo12[s].dig = e.dig)
